@@ -272,7 +272,7 @@ Print Assumptions finalize_gives_well_indexed.
 
 (* --- character level (coq/Geom/GeomLex.v, under the token-level readers; tied by correspondence on the files and on
    textual variants of them): what io_utils::token accepts between a keyword and the colon *)
-From OM Require Import Geom.GeomLex Geom.GeomLexProofs.
+From OM Require Import Geom.GeomFile Geom.GeomLex Geom.GeomLexProofs.
 
 Theorem lexer_name_after_one_blank : forall sp name rest, isspace sp = true -> plain name -> name <> [] ->
   token (mkS (sp :: name ++ 58%nat :: rest) false) = (mkS rest false, name).
@@ -299,3 +299,13 @@ Theorem lexer_comment_line_skipped : forall f body rest, ~ In 10%nat body ->
   skip_comments_l (S f) (35%nat :: body ++ 10%nat :: rest) = skip_comments_l f rest.
 Proof. exact comment_line_skipped. Qed.
 Print Assumptions lexer_comment_line_skipped.
+
+(* the character-level reader refines the token level on a well-formed Domains section: lines "Domain name: tok tok ..."
+   (one blank after the keyword, names without blanks or colon, tokens without blanks) are read back, one after the
+   other, as the names and token lists they were written from - whatever follows *)
+Theorem lexer_reads_rendered_domains : forall ds rest,
+  Forall (fun d => plain (fst d) /\ fst d <> [] /\ Forall word (snd d)) ds ->
+  read_domains V11 (length ds) (mkS (render_lines ds ++ rest) false)
+  = (mkS rest false, map (fun d => (fst d, map dtok_of (snd d))) ds).
+Proof. exact read_domains_rendered. Qed.
+Print Assumptions lexer_reads_rendered_domains.
